@@ -334,34 +334,45 @@ def _short(b):
 
 
 # ---------------------------------------------------------------------------------- engine subclass
-class SimCS(CloudSync):
-    """The real CloudSync with the application callbacks owned by the harness."""
+class _Callbacks:
+    """application callbacks owned by the harness (mixed into the real CloudSync / SmartCloudSync)"""
     world = None
 
     def handle_notification(self, notification):
-        w = SimCS.world
+        w = _Callbacks.world
         if w is not None:
             w.notes.append((w.ctl.step_no, notification.source.value, notification.ntype, notification.path))
 
     def resolve_conflict(self, f1, f2):
-        w = SimCS.world
+        w = _Callbacks.world
         if w is not None and w.resolver is not None:
             return w.resolver(f1, f2)
         return None
 
     def prioritize(self, side, path):
-        w = SimCS.world
+        w = _Callbacks.world
         if w is not None and w.prioritize is not None:
             return w.prioritize(side, path)
         return 0
 
     def translate(self, side, path):
-        w = SimCS.world
+        w = _Callbacks.world
         if w is not None and w.translate is not None:
             r = w.translate(self, side, path)
             if r is not NotImplemented:
                 return r
         return CloudSync.translate(self, side, path)
+
+
+class SimCS(_Callbacks, CloudSync):
+    """The real CloudSync with the application callbacks owned by the harness."""
+
+
+from cloudsync.smartsync import SmartCloudSync    # noqa: E402
+
+
+class SimSmartCS(_Callbacks, SmartCloudSync):
+    """The real SmartCloudSync (on-demand mode) with the application callbacks owned by the harness."""
 
 
 MGR_NAMES = ("emgr0", "emgr1", "smgr")
@@ -418,7 +429,7 @@ class World:
             if not p.connected:
                 p.connect(CREDS)
         type(self).engine_class.world = self
-        SimCS.world = self
+        _Callbacks.world = self
         kw = {}
         if self.cfg.get("root_oids"):
             kw["root_oids"] = tuple(p.info_path(r).oid for p, r in zip(self.provs, self.roots))
